@@ -140,11 +140,25 @@ def registerRank (st : MState) (r : String) : MState :=
   st.allMatches.foldl (fun s e =>
     if r ∈ e.2 then startRank { s with rankMatches := aset s.rankMatches e.1 r } e.1 else s) st2
 
-/-- `matchRanks` -/
+/-- all ranks matched (directly or not) with `r1` or `r2` -/
+def matchClosure (st : MState) (r1 r2 : String) : List String :=
+  ((aget st.allMatches r1).getD [] ++ (aget st.allMatches r2).getD [] ++ [r1, r2]).eraseDups
+
+/-- a rank `src` matched with the registered rank `r`: matched now unless it is registered or matched already -/
+def matchApplySrc (r : String) (s : MState) (src : String) : MState :=
+  if src ∈ s.loopOrder || (aget s.rankMatches src).isSome then s
+  else startRank { s with rankMatches := aset s.rankMatches src r } src
+
+def matchApplyRank (all : List String) (s : MState) (r : String) : MState :=
+  if r ∈ s.loopOrder then (all.filter (· ≠ r)).foldl (matchApplySrc r) s else s
+
+/-- `matchRanks`: the symmetric closure is recorded; a match with a rank that is already part of the
+    loop order takes effect at once for every matched rank that is neither registered nor matched yet
+    (otherwise `registerRank` applies it when the rank is registered) -/
 def matchRanks (st : MState) (r1 r2 : String) : MState :=
-  let g := fun r => (aget st.allMatches r).getD []
-  let all := (g r1 ++ g r2 ++ [r1, r2]).eraseDups
-  { st with allMatches := all.foldl (fun am r => aset am r (all.filter (· ≠ r))) st.allMatches }
+  let all := matchClosure st r1 r2
+  all.foldl (matchApplyRank all)
+    { st with allMatches := all.foldl (fun am r => aset am r (all.filter (· ≠ r))) st.allMatches }
 
 /-- the data row `iteration[:i+1] + point[:i] + [coord] + [pos]` -/
 def dataRow (itn : List Nat) (pt : List Int) (i : Nat) (c pos : Int) : Line :=
@@ -389,54 +403,59 @@ def optUse (t : Bool) (rank ty : String) (c : Int) (pos : Nat) : List (Item PEmp
 section
 variable {α β : Type}
 
-/-- `and_iterator` (equal-arity path) over the presented elements of both operands.  `ap` / `bp` are
-    `a_pos` / `b_pos` (the code advances them only when traced, and only reads them when traced). -/
+/-- `and_iterator` (equal-arity path) over the presented elements of both operands.  `pa` / `pb` are
+    what is left of `a_fiber.iterPositions()` / `b_fiber.iterPositions()`: the head is `a_pos` / `b_pos`,
+    the position of the current element in its own fiber (the code advances them only when traced, and
+    only reads them when traced). -/
 def andSteps (rank tyA tyB : String) (ta tb : Bool) :
-    Nat → Nat → Fib Int α → Fib Int β → List (Step (α × β))
+    List Nat → List Nat → Fib Int α → Fib Int β → List (Step (α × β))
   | _, _, [], [] => [.emit .inc]
-  | ap, _, (ca, _) :: _, [] => (optUse ta rank tyA ca ap).map .emit ++ [.emit .inc]
-  | _, bp, [], (cb, _) :: _ => (optUse tb rank tyB cb bp).map .emit ++ [.emit .inc]
-  | ap, bp, (ca, pa) :: ra, (cb, pb) :: rb =>
+  | pa, _, (ca, _) :: _, [] => (optUse ta rank tyA ca (pa.headD 0)).map .emit ++ [.emit .inc]
+  | _, pb, [], (cb, _) :: _ => (optUse tb rank tyB cb (pb.headD 0)).map .emit ++ [.emit .inc]
+  | pa, pb, (ca, xa) :: ra, (cb, xb) :: rb =>
     if ca = cb then
-      (optUse ta rank tyA ca ap ++ optUse tb rank tyB cb bp).map .emit ++
-        .yield ca (pa, pb) :: andSteps rank tyA tyB ta tb (ap + 1) (bp + 1) ra rb
+      (optUse ta rank tyA ca (pa.headD 0) ++ optUse tb rank tyB cb (pb.headD 0)).map .emit ++
+        .yield ca (xa, xb) :: andSteps rank tyA tyB ta tb pa.tail pb.tail ra rb
     else if ca < cb then
-      (optUse ta rank tyA ca ap).map .emit ++
-        .emit .inc :: andSteps rank tyA tyB ta tb (ap + 1) bp ra ((cb, pb) :: rb)
+      (optUse ta rank tyA ca (pa.headD 0)).map .emit ++
+        .emit .inc :: andSteps rank tyA tyB ta tb pa.tail pb ra ((cb, xb) :: rb)
     else
-      (optUse tb rank tyB cb bp).map .emit ++
-        .emit .inc :: andSteps rank tyA tyB ta tb ap (bp + 1) ((ca, pa) :: ra) rb
+      (optUse tb rank tyB cb (pb.headD 0)).map .emit ++
+        .emit .inc :: andSteps rank tyA tyB ta tb pa pb.tail ((ca, xa) :: ra) rb
 termination_by _ _ a b => a.length + b.length
 
-/-- leader-follower `intersection`: `a` = presented elements of the leader, `b` = the follower as
-    stored; the follower is probed with `getPayload(c, trace=…)` (which always calls `addUse`) -/
+/-- leader-follower `intersection`: `a` = presented elements of the leader with `pa` their positions in
+    the leader fiber (`iterPositions()`), `b` = the follower as stored; the follower is probed with
+    `getPayload(c, trace=…)` (which always calls `addUse`) -/
 def lfSteps (rankA rankB tyA tyB : String) (ta : Bool) (dfl : β) (b : Fib Int β) :
-    Nat → Fib Int α → List (Step (α × β))
+    List Nat → Fib Int α → List (Step (α × β))
   | _, [] => []
-  | i, (c, p) :: rest =>
-    (optUse ta rankA tyA c i).map .emit ++
+  | pa, (c, p) :: rest =>
+    (optUse ta rankA tyA c (pa.headD 0)).map .emit ++
       .emit (.use rankB tyB c (lowerBound b c)) ::
-      .yield c (p, (posLookup b c).getD dfl) :: lfSteps rankA rankB tyA tyB ta dfl b (i + 1) rest
+      .yield c (p, (posLookup b c).getD dfl) :: lfSteps rankA rankB tyA tyB ta dfl b pa.tail rest
 
 /-- `c >= interval[1]` / `c >= interval[0]` (no interval: never / always) -/
 def aboveHi (hi : Option Int) (c : Int) : Bool := match hi with | some h => decide (h ≤ c) | none => false
 def inLo (lo : Option Int) (c : Int) : Bool := match lo with | some l => decide (l ≤ c) | none => true
 
 /-- `project_iterator` (`trans_fn = c + off`, optional `interval`, `start_pos=None`, `tick=False`)
-    over the presented elements of the source fiber; saved copy = slot 1 -/
+    over the presented elements of the source fiber, `pa` their positions in it (`iterPositions()`);
+    saved copy = slot 1 -/
 def projLoop (srcRank ty : String) (t : Bool) (off : Int) (lo hi : Option Int) :
-    Nat → Fib Int α → List (Step α)
+    List Nat → Fib Int α → List (Step α)
   | _, [] => []
-  | j, (oc, p) :: rest =>
+  | pa, (oc, p) :: rest =>
     let c := oc + off
     if aboveHi hi c then []
     else if inLo lo c then
-      .yield c p :: ((if t then [Step.emit (.useSaved 1 srcRank ty oc j), .emit (.save 1)] else []) ++
-        projLoop srcRank ty t off lo hi (j + 1) rest)
-    else projLoop srcRank ty t off lo hi (j + 1) rest
+      .yield c p :: ((if t then [Step.emit (.useSaved 1 srcRank ty oc (pa.headD 0)), .emit (.save 1)] else []) ++
+        projLoop srcRank ty t off lo hi pa.tail rest)
+    else projLoop srcRank ty t off lo hi pa.tail rest
 
-def projSteps (srcRank ty : String) (t : Bool) (off : Int) (lo hi : Option Int) (a : Fib Int α) : List (Step α) :=
-  .emit (.save 1) :: projLoop srcRank ty t off lo hi 0 a
+def projSteps (srcRank ty : String) (t : Bool) (off : Int) (lo hi : Option Int) (pa : List Nat) (a : Fib Int α) :
+    List (Step α) :=
+  .emit (.save 1) :: projLoop srcRank ty t off lo hi pa a
 
 end
 
@@ -498,6 +517,7 @@ structure PopSt (π : Type) where
   toInsert : List Int := []
   oldEnd : Int := 0
   insStart : Nat := 0
+  bposs : Option (List Nat) := none   -- what is left of `b_fiber.iterPositions()` (`none`: 0, 1, 2, …)
 
 /-- the search of an inserting populate: `a_fiber.iterRange(old_end, b_coord, tick=False, start_pos=a_pos)` -/
 def scanReads (emptyP : π → Bool) (rank ty : String) (oldEnd bc : Int) (nIns : Nat) :
@@ -514,7 +534,7 @@ variable (cfg : PopCfg) (mk : π) (rm : Bool → π → Bool) (emptyP : π → B
 /-- before the element is looked up: `addUse(rank, b_coord, b_pos, b_trace)` and, when inserting, the
     traced search `a_fiber.iterRange(old_end, b_coord, tick=False, start_pos=a_pos)` -/
 def popPre (st : PopSt π) (inserting : Bool) (bc : Int) : List (Item σ) :=
-  (if cfg.trB then [.use cfg.rank cfg.srcTy bc st.bpos] else []) ++
+  (if cfg.trB then [.use cfg.rank cfg.srcTy bc (match st.bposs with | some l => l.headD 0 | none => st.bpos)] else []) ++
   (if inserting && decide (st.apos < st.z.length) && cfg.trR then
     scanReads emptyP cfg.rank cfg.readTy st.oldEnd bc st.toInsert.length st.apos (st.z.drop st.apos) else [])
 
@@ -548,13 +568,15 @@ def popYield (st : PopSt π) (bc : Int) (bp : β) : PopSt π × List (Item σ) :
       .use cfg.rank "iter" bc st.bpos :: .sub r.2 :: .inc :: popPost cfg removed bc wp)
   let st' : PopSt π :=
     if removed then
-      { st with z := z2.eraseIdx (lowerBound z2 bc), apos := s.1, bpos := st.bpos + 1, inserting := inserting }
+      { st with z := z2.eraseIdx (lowerBound z2 bc), apos := s.1, bpos := st.bpos + 1, inserting := inserting,
+                bposs := st.bposs.map List.tail }
     else if cfg.trW && staged then
       { z := z2, apos := s.1 + 1, bpos := st.bpos + 1, inserting := inserting,
         toInsert := st.toInsert ++ [bc], oldEnd := bc + 1,
-        insStart := if st.toInsert.isEmpty then s.1 else st.insStart }
+        insStart := if st.toInsert.isEmpty then s.1 else st.insStart, bposs := st.bposs.map List.tail }
     else
-      { st with z := z2, apos := s.1 + 1, bpos := st.bpos + 1, inserting := inserting }
+      { st with z := z2, apos := s.1 + 1, bpos := st.bpos + 1, inserting := inserting,
+                bposs := st.bposs.map List.tail }
   (st', items)
 
 /-- the final move phase of an inserting populate: the elements from `insert_start_pos` on, last first -/
@@ -604,6 +626,9 @@ def anyDefault (dflt : Int) (d : Nat) : AnyTree := ⟨d, defaultTree dflt d⟩
 def anyRm (dflt : Int) (new : Bool) (t : AnyTree) : Bool := rmOf dflt t.1 new t.2
 def presentAny (dflt : Int) (t : AnyTree) : Fib Int AnyTree :=
   (children t).filter (fun e => !anyEmpty dflt e.2)
+/-- `iterPositions()` of an eager fiber in compressed format: the indices of its non-empty elements -/
+def presentIdx (dflt : Int) (t : AnyTree) : List Nat :=
+  (((children t).zipIdx).filter (fun e => !anyEmpty dflt e.1.2)).map (·.2)
 def depthBelow (t : AnyTree) : Nat := t.1 - 1
 
 inductive SrcKind
@@ -649,7 +674,7 @@ def srcSteps (tr : Key → Bool) (dflt : Int) (rank : String) (l0 : Nat) (env : 
   | .fiber x => (presentAny dflt (opAt env x)).map (fun e => .yield e.1 [(x, e.2)])
   | .and x y =>
     let tyA := label l0 "intersect_"; let tyB := label (l0 + 1) "intersect_"
-    (andSteps rank tyA tyB (tr (rank, tyA)) (tr (rank, tyB)) 0 0
+    (andSteps rank tyA tyB (tr (rank, tyA)) (tr (rank, tyB)) (presentIdx dflt (opAt env x)) (presentIdx dflt (opAt env y))
       (presentAny dflt (opAt env x)) (presentAny dflt (opAt env y))).map
       (fun s => match s with
         | .emit i => .emit i
@@ -657,13 +682,13 @@ def srcSteps (tr : Key → Bool) (dflt : Int) (rank : String) (l0 : Nat) (env : 
   | .lf x y =>
     let tyA := label l0 "intersect_"; let tyB := label (l0 + 1) "intersect_"
     (lfSteps rank rank tyA tyB (tr (rank, tyA)) (anyDefault dflt (depthBelow (opAt env y)))
-      (children (opAt env y)) 0 (presentAny dflt (opAt env x))).map
+      (children (opAt env y)) (presentIdx dflt (opAt env x)) (presentAny dflt (opAt env x))).map
       (fun s => match s with
         | .emit i => .emit i
         | .yield c p => .yield c [(x, p.1), (y, p.2)])
   | .proj x srcRank off lo hi own =>
     let ty := label (if own then 0 else l0) "project_"
-    (projSteps srcRank ty (tr (srcRank, ty)) off lo hi (presentAny dflt (opAt env x))).map
+    (projSteps srcRank ty (tr (srcRank, ty)) off lo hi (presentIdx dflt (opAt env x)) (presentAny dflt (opAt env x))).map
       (fun s => match s with
         | .emit i => .emit i
         | .yield c p => .yield c [(x, p)])
@@ -683,7 +708,9 @@ def levelItems {σ : Type} (tr : Key → Bool) (dflt : Int) (lv : Level) (env : 
     let dz := depthBelow env.z
     let r := popItems (popCfgOf tr lv) (anyDefault dflt dz) (anyRm dflt) (anyEmpty dflt)
       (fun _ zc bs => body { ops := bindOps env.ops bs, z := zc })
-      { z := children env.z } (srcSteps tr dflt lv.rank 2 env lv.src)
+      { z := children env.z,
+        bposs := match lv.src with | .fiber x => some (presentIdx dflt (opAt env x)) | _ => none }
+      (srcSteps tr dflt lv.rank 2 env lv.src)
     (mkFib dz r.1.z, r.2)
   else
     match lv.src with
